@@ -45,6 +45,11 @@ class control_proportional_integral(Control[float]):
 
     def apply(self, dt: float, error_norm_inv_prev: float, /, *, error_power):
         # Equivalent: error_power = error_norm ** (-1.0 / error_contraction_rate)
+
+        # A vanishing error estimate means error_power = inf. Keep it (and thus
+        # the memory below) finite: otherwise, the next proportional gain
+        # is inf / inf = nan, and clipping does not repair a nan.
+        error_power = np.minimum(error_power, 1.0 / np.finfo_eps(float))
         gain_integral = error_power**self.exponent_integral
         gain_proportional = (
             error_power / error_norm_inv_prev
